@@ -29,6 +29,35 @@ struct in_tlv {
         V_POST("C02.writer-frame: nothing outside the property is written", (g_j >= in.off && g_j < in.off + (ret)) || b[g_j] == o[g_j]); \
     } } while (0)
 
+/* the bare call of writer number `which` (used twice: the run that is checked against the specification, and the
+ * re-run of the determinism clause) */
+static size_t v_call_writer(unsigned which, uint8_t *b, size_t off) {
+    switch (which) {
+        case 0:  return setHostIdTLV(b, off, g_ctx);
+        case 1:  return setCharacteristicsTLV(b, off, g_ctx);
+        case 2:  return setPhysicalMediumTLV(b, off, g_ctx);
+        case 3:  return setIPv4TLV(b, off, g_ctx);
+        case 4:  return setIPv6TLV(b, off, g_ctx);
+        case 5:  return setPerfCounterTLV(b, off);
+        case 6:  return setLinkSpeedTLV(b, off, g_ctx);
+        case 7:  return setHostnameTLV(b, off);
+        case 8:  return setWirelessTLV(b, off, g_ctx);
+        case 9:  return setBSSIDTLV(b, off, g_ctx);
+        case 10: return setSSIDTLV(b, off, g_ctx);
+        case 11: return setWifiMaxRateTLV(b, off, g_ctx);
+        case 12: return setWifiRssiTLV(b, off, g_ctx);
+        case 13: return setQosCharacteristicsTLV(b, off);
+        case 14: return setIconImageTLV(b, off);
+        case 15: return setFriendlyNameTLV(b, off);
+        case 16: return setEndOfPropertyTLV(b, off);
+        case 17: return setAPAssociationTableTLV(b, off, g_ctx) + setRepeaterAPLineageTLV(b, off, g_ctx) + setRepeaterAPTableTLV(b, off, g_ctx);
+        case 18: return setSupportInfoTLV(b, off);
+        case 19: return setUuidTLV(b, off);
+        case 20: return setHardwareIdTLV(b, off);
+        default: return 0;
+    }
+}
+
 void h_tlv_writers(void) {
     V_INPUT(h_tlv_writers, struct in_tlv, in);
     V_ENV(in.cfg);
@@ -38,45 +67,69 @@ void h_tlv_writers(void) {
     uint8_t b[BUF_N], o[BUF_N];
     for (unsigned i = 0; i < BUF_N; i++) { b[i] = in.buf[i]; o[i] = in.buf[i]; }
     size_t r;
+    struct v_led led0 = g_led;
     switch (in.which) {
-        case 0:  r = setHostIdTLV(b, in.off, g_ctx);          W_CHECK(r, 0x01, false); break;
-        case 1:  r = setCharacteristicsTLV(b, in.off, g_ctx); W_CHECK(r, 0x02, false); break;
-        case 2:  r = setPhysicalMediumTLV(b, in.off, g_ctx);  W_CHECK(r, 0x03, false); break;
-        case 3:  r = setIPv4TLV(b, in.off, g_ctx);            W_CHECK(r, 0x07, false); break;
-        case 4:  r = setIPv6TLV(b, in.off, g_ctx);            W_CHECK(r, 0x08, false); break;
-        case 5:  r = setPerfCounterTLV(b, in.off);            W_CHECK(r, 0x0A, false); break;
-        case 6:  r = setLinkSpeedTLV(b, in.off, g_ctx);       W_CHECK(r, 0x0C, false); break;
-        case 7:  r = setHostnameTLV(b, in.off);               W_CHECK(r, 0x0F, false); break;
-        case 8:  r = setWirelessTLV(b, in.off, g_ctx);        W_CHECK(r, 0x04, !g_cfg.wifi); break;
-        case 9:  r = setBSSIDTLV(b, in.off, g_ctx);           W_CHECK(r, 0x05, !g_cfg.wifi || g_cfg.bssid_fail); break;
-        case 10: V_ASSUME(g_cfg.wifi); r = setSSIDTLV(b, in.off, g_ctx);        W_CHECK(r, 0x06, false); break;
-        case 11: V_ASSUME(g_cfg.wifi); r = setWifiMaxRateTLV(b, in.off, g_ctx); W_CHECK(r, 0x09, false); break;
-        case 12: V_ASSUME(g_cfg.wifi); r = setWifiRssiTLV(b, in.off, g_ctx);    W_CHECK(r, 0x0D, false); break;
-        case 13: r = setQosCharacteristicsTLV(b, in.off);     W_CHECK(r, 0x14, false); break;
-        case 14: r = setIconImageTLV(b, in.off);              W_CHECK(r, 0x0E, false); break;
-        case 15: r = setFriendlyNameTLV(b, in.off);           W_CHECK(r, 0x11, false); break;
+        case 0:  r = v_call_writer(in.which, b, in.off);          W_CHECK(r, 0x01, false); break;
+        case 1:  r = v_call_writer(in.which, b, in.off); W_CHECK(r, 0x02, false); break;
+        case 2:  r = v_call_writer(in.which, b, in.off);  W_CHECK(r, 0x03, false); break;
+        case 3:  r = v_call_writer(in.which, b, in.off);            W_CHECK(r, 0x07, false); break;
+        case 4:  r = v_call_writer(in.which, b, in.off);            W_CHECK(r, 0x08, false); break;
+        case 5:  r = v_call_writer(in.which, b, in.off);            W_CHECK(r, 0x0A, false); break;
+        case 6:  r = v_call_writer(in.which, b, in.off);       W_CHECK(r, 0x0C, false); break;
+        case 7:  r = v_call_writer(in.which, b, in.off);               W_CHECK(r, 0x0F, false); break;
+        case 8:  r = v_call_writer(in.which, b, in.off);        W_CHECK(r, 0x04, !g_cfg.wifi); break;
+        case 9:  r = v_call_writer(in.which, b, in.off);           W_CHECK(r, 0x05, !g_cfg.wifi || g_cfg.bssid_fail); break;
+        case 10: V_ASSUME(g_cfg.wifi); r = v_call_writer(in.which, b, in.off);        W_CHECK(r, 0x06, false); break;
+        case 11: V_ASSUME(g_cfg.wifi); r = v_call_writer(in.which, b, in.off); W_CHECK(r, 0x09, false); break;
+        case 12: V_ASSUME(g_cfg.wifi); r = v_call_writer(in.which, b, in.off);    W_CHECK(r, 0x0D, false); break;
+        case 13: r = v_call_writer(in.which, b, in.off);     W_CHECK(r, 0x14, false); break;
+        case 14: r = v_call_writer(in.which, b, in.off);              W_CHECK(r, 0x0E, false); break;
+        case 15: r = v_call_writer(in.which, b, in.off);           W_CHECK(r, 0x11, false); break;
         case 16:
-            r = setEndOfPropertyTLV(b, in.off);
+            r = v_call_writer(in.which, b, in.off);
             V_POST("C02.end-marker: one zero byte", r == 1 && b[in.off] == 0 && (g_j == in.off || b[g_j] == o[g_j]));
             break;
         case 17:
-            r = setAPAssociationTableTLV(b, in.off, g_ctx) + setRepeaterAPLineageTLV(b, in.off, g_ctx) + setRepeaterAPTableTLV(b, in.off, g_ctx);
+            r = v_call_writer(in.which, b, in.off);
             V_POST("C02.writer-absent-writes-nothing", r == 0 && b[g_j] == o[g_j]);
             break;
-        case 18: r = setSupportInfoTLV(b, in.off);            W_CHECK(r, 0x10, false); break;
+        case 18: r = v_call_writer(in.which, b, in.off);            W_CHECK(r, 0x10, false); break;
         case 19:
             /* not part of any frame the responder sends; with no UUID available it writes an empty property */
-            r = setUuidTLV(b, in.off);
+            r = v_call_writer(in.which, b, in.off);
             V_POST("C04.uuid-writer: 16 bytes when the platform has a UUID, an empty property otherwise",
                    b[in.off] == 0x12 && r == 2u + b[in.off + 1] && (b[in.off + 1] == 0 || b[in.off + 1] == 16) &&
                    ((g_j >= in.off && g_j < in.off + r) || b[g_j] == o[g_j]));
             break;
-        case 20: r = setHardwareIdTLV(b, in.off);             W_CHECK(r, 0x13, g_cfg.hwid_len == 0); break;
+        case 20: r = v_call_writer(in.which, b, in.off);             W_CHECK(r, 0x13, g_cfg.hwid_len == 0); break;
         default: r = 0; break;
     }
-    (void)r;
+    (void)r; (void)led0;
     if (in.which == 7) { V_CANARY("hostname"); }
     if (in.which == 12) { V_CANARY("rssi"); }
+    V_CANARY("end");
+}
+
+/* C02, determinism clause ("every byte is determined by the frames received and the configuration, never by uninitialised
+ * memory"): the same writer run twice from the same configuration and ledger into two copies of the buffer produces the same
+ * bytes.  CBMC gives every uninitialised local and every fresh allocation a NEW arbitrary value per run, so a byte taken from
+ * either differs between the two runs.  (Kept apart from h_tlv_writers: under DFCC with 18 enforced contracts the doubled run
+ * exceeded the memory limit.) */
+void h_tlv_determinism(void) {
+    V_INPUT(h_tlv_determinism, struct in_tlv, in);
+    V_ENV(in.cfg);
+    g_ctx = &v_ctx_obj;
+    g_k = in.gk; g_j = in.gj;
+    V_ASSUME(in.off <= BUF_N - V_TLV_ROOM && in.gj < BUF_N && in.which <= 20);
+    if (in.which >= 10 && in.which <= 12) V_ASSUME(g_cfg.wifi);
+    uint8_t b[BUF_N], b2[BUF_N];
+    for (unsigned i = 0; i < BUF_N; i++) { b[i] = in.buf[i]; b2[i] = in.buf[i]; }
+    struct v_led led0 = g_led;
+    size_t r = v_call_writer(in.which, b, in.off);
+    g_led = led0;
+    size_t r2 = v_call_writer(in.which, b2, in.off);
+    V_POST("C02.writer-deterministic: same configuration, same bytes - nothing is taken from uninitialised memory", r2 == r && b2[g_j] == b[g_j]);
+    if (in.which == 9 && g_cfg.wifi && g_cfg.bssid_fail) { V_CANARY("bssid-unavailable"); }
     V_CANARY("end");
 }
 
